@@ -230,3 +230,24 @@ def flavoured(a, which=None):
     if which == "negstride":
         return np.ascontiguousarray(a[::-1])[::-1]
     return a
+
+
+class Handed:
+    """arrays handed to the library by a caller who goes on using them: `give` returns the
+    array (in one of the memory layouts above) and remembers it, `scribble` overwrites every
+    remembered array afterwards, as a caller re-filling its buffers would.  An object that
+    still read its data through such an array would change with it."""
+
+    def __init__(self):
+        self.arrays = []
+
+    def give(self, a, flavour=None):
+        a = flavoured(np.array(a), flavour)
+        self.arrays.append(a)
+        return a
+
+    def scribble(self, value=777.0):
+        for a in self.arrays:
+            if a.flags.writeable:
+                a[...] = value
+        self.arrays = []
